@@ -30,6 +30,8 @@ class MarginalImputer(BaseImputer):
 
     @staticmethod
     def _sample_marginals(features, feature_subset):
+        if not feature_subset:
+            return {}
         rand_idx = random.randrange(len(features))
         sampled_instance = features[rand_idx].copy()
         sampled_features = {feature_name: sampled_instance[feature_name]
